@@ -35,7 +35,7 @@ def runner(prop, fam, tier, seed, replay=None):
     fam2["impl_workers"] = 16 if tier == "thorough" else 6
     t0 = time.time()
     rc = table_check(prop, fam2, tier, seed, replay)
-    evp = os.path.join(VERIF, "evidence", prop + ".json")
+    evp = vcheck.evidence_path(prop)
     try:
         if rc not in (0, 1) or os.path.getmtime(evp) < t0:
             return rc   # no fresh evidence was written by this run (infrastructure failure)
